@@ -246,6 +246,155 @@ def run_schedule(ctx, causes, choices, rng, bound, line_level, base):
     return trace, res
 
 
+# ------------------------------------------------- racing re-connection
+def run_recon_schedule(ctx, causes, choices, rng, bound=None):
+    """A terminating cause races with the client's own DISCONNECT followed
+    by a fresh CONNECT of the same namespace (and with a client event).  Per
+    session id: disconnect handler at most once and exactly once iff the id
+    is no longer connected; `server disconnect` only for the id passed to
+    disconnect(); `client disconnect` only for an id that was the client's
+    session when it sent DISCONNECT; a transport reason only after a loss."""
+    from vlib import refcodec as R
+    sp = rng.choice([None, 0.05, 0.2]) if rng is not None else None
+    sched = SC.ThreadScheduler(choices=choices, rng=rng,
+                               preemption_bound=bound, switch_prob=sp)
+    w = World(sched)
+    d, t = w.d, w.t
+    m = d.sio.manager
+    client_disc = set()
+    if 'client_disconnect' in causes:
+        client_disc.add(w.sid)
+    if 'sibling_disconnect' in causes:
+        client_disc.add(w.sid_b)
+    lost = []
+    fed_events = []
+    ev_log = []
+    d.on('ev', lambda sid, tok: ev_log.append((sid, tok)) or 'r', '/')
+
+    def recon():
+        sid = m.sid_from_eio_sid(t.eio_sid, '/')
+        if sid is not None:
+            client_disc.add(sid)
+        t.socket.receive(eio_packet.Packet(eio_packet.MESSAGE, '1'))
+        sched.yield_point('client:between')
+        if not t.socket.closed:
+            t.socket.receive(eio_packet.Packet(eio_packet.MESSAGE, '0'))
+
+    def event():
+        # sampled without yield points (the unwrapped methods), i.e.
+        # atomically with respect to the other actors
+        M = type(m)
+        sid = M.sid_from_eio_sid(m, t.eio_sid, '/')
+        conn = bool(sid is not None and M.is_connected(m, sid, '/'))
+        fed_events.append((sid, conn))
+        if not t.socket.closed:
+            t.socket.receive(eio_packet.Packet(eio_packet.MESSAGE,
+                                               '27["ev",1]'))
+
+    def loss():
+        lost.append(1)
+        t.socket.close(wait=False, abort=True,
+                       reason=d.eio.reason.TRANSPORT_ERROR)
+    for c in causes:
+        if c == 'recon':
+            sched.spawn(c, recon)
+        elif c == 'event':
+            sched.spawn(c, event)
+        elif c == 'transport_loss':
+            sched.spawn(c, loss)
+        else:
+            sched.spawn(c, w.actor(c))
+    trace = sched.run()
+    ctx.count('recon_schedules_run')
+    t.drain()
+    wit = {'part': 'recon', 'causes': causes,
+           'choices': [c for _, c in trace],
+           'labels': [[a, lbl] for a, lbl in sched.labels][-80:],
+           'handler_calls': [list(h) for h in w.handler_calls],
+           'frames_to_client': [[p['type'], p['nsp'], p['id'], p['data']]
+                                for p in t.packets]}
+    if sched.aborted:
+        wit['aborted'] = sched.aborted
+        ctx.violation(None, 'schedule did not complete: %s' % sched.aborted,
+                      wit)
+        return trace, 'aborted'
+    errs = list(sched.errors) + d.errors()
+    if errs:
+        wit['errors'] = [{'exc': e.get('exc'), 'tb': (e.get('tb') or '')[
+            -1200:]} for e in errs[:3]]
+        ctx.violation(None, 'concurrent %s: exception escaped (%s)' % (
+            ' || '.join(causes), errs[0].get('exc')), wit)
+        return trace, 'exception'
+    sids = [(p['data']['sid'], p['nsp']) for p in t.packets
+            if p['type'] == R.CONNECT and isinstance(p['data'], dict)]
+    res = 'clean'
+    for sid, ns in sids:
+        calls = [h for h in w.handler_calls if h[1] == sid]
+        conn = m.is_connected(sid, ns)
+        causes_for = set()
+        if lost:
+            causes_for.add('transport error')
+        if sid in client_disc:
+            causes_for.add('client disconnect')
+        if sid == w.sid and 'server_disconnect' in causes:
+            causes_for.add('server disconnect')
+        if len(calls) > 1 or (not conn) != (len(calls) == 1):
+            res = 'handler_x%d connected=%s' % (len(calls), conn)
+        elif calls and calls[0][2] not in causes_for:
+            res = 'reason %r not among %s' % (calls[0][2],
+                                              sorted(causes_for))
+        elif conn and t.socket.closed:
+            res = 'session alive on a closed transport'
+        if res != 'clean':
+            wit['sid'] = sid
+            break
+    if res == 'clean':
+        for sid, conn in fed_events:
+            inv = [e for e in ev_log if e[1] == 1]
+            acks = [p for p in t.packets if p['type'] == R.ACK and
+                    p['id'] == 7]
+            ctx.count('racing_events_judged')
+            # threads: between the instant the frame is fed and the server's
+            # own test other actors run, so "connected when fed" only bounds
+            # the outcome from one side: a session that was already not
+            # connected (and ids only ever go from connected to ended) must
+            # not have its event handled; never more than one invocation /
+            # ACK; no ACK without an invocation
+            if len(inv) > 1 or len(acks) > len(inv) or \
+                    (inv and not conn and inv[0][0] == sid):
+                res = 'event fed while connected=%s: %d invocations, %d ' \
+                    'ACKs' % (conn, len(inv), len(acks))
+    key = None
+    if res == 'session alive on a closed transport':
+        key = 'session-accepted-during-transport-teardown'
+    ctx.count('outcome_clean' if res == 'clean' else 'outcome_bad')
+    if res != 'clean':
+        ctx.violation(key, 'concurrent %s: %s' % (' || '.join(causes), res),
+                      wit)
+    ctx.case((tuple(causes), res, tuple(c for _, c in trace)[:40]),
+             wit if len(ctx.samples) < 3 else None)
+    return trace, res
+
+
+def explore_recon(ctx, causes, bound, limit):
+    choices = []
+    n = 0
+    while choices is not None and n < limit and not ctx.out_of_time() \
+            and not ctx.too_many_violations():
+        trace, res = run_recon_schedule(ctx, causes, choices, None, bound)
+        n += 1
+        choices = SC.next_schedule(trace)
+    return n, choices is None
+
+
+RECON_JOBS = [(['server_disconnect', 'recon'], None),
+              (['transport_loss', 'recon'], None),
+              (['server_disconnect', 'event'], None),
+              (['client_disconnect', 'event'], None),
+              (['server_disconnect', 'recon', 'event'], 3),
+              (['sibling_disconnect', 'recon'], 3)]
+
+
 # ---------------------------------------------------------- line level
 _line_state = {}
 
@@ -319,6 +468,16 @@ def run(ctx):
     triples = list(itertools.combinations(CAUSES, 3))
     jobs = [(list(p), None) for p in pairs] + [(list(t), 2) for t in triples]
     ctx.extra['exhaustive_pairs'] = {}
+    # terminations racing with the client's own re-connection / events
+    ctx.require('recon_schedules_run', 50)
+    ctx.extra['recon_scenarios'] = {}
+    for i, (causes, bound) in enumerate(RECON_JOBS):
+        if i % ctx.nshards != ctx.shard and ctx.nshards > 1:
+            continue
+        n, complete = explore_recon(ctx, causes, bound,
+                                    120 if ctx.tier == 'quick' else 8000)
+        ctx.extra['recon_scenarios']['+'.join(causes)] = {
+            'schedules': n, 'complete': complete}
     kline = ctx.shard * 10**6
     for i, (causes, bound) in enumerate(jobs):
         if i % ctx.nshards != ctx.shard and ctx.nshards > 1:
@@ -336,6 +495,11 @@ def run(ctx):
     k = kline
     while not ctx.out_of_time() and not ctx.too_many_violations():
         k = line_batch(ctx, pairs, triples, base, k, 500)
+        if not ctx.out_of_time():
+            rng = ctx.case_rng(9 * 10 ** 7 + k)
+            causes, bound = RECON_JOBS[k % len(RECON_JOBS)]
+            for _ in range(20):
+                run_recon_schedule(ctx, causes, [], rng)
 
 
 def line_batch(ctx, pairs, triples, base, k, n):
